@@ -115,17 +115,21 @@ class Problem:
     """log L: isotropic Gaussian of width `width` at `center`;
     log pi: non-constant (Gaussian, sd 3) inside the box [-lim, lim]^d, -inf outside."""
 
-    def __init__(self, dims=2, width=0.5, center=1.0, lim=5.0):
+    def __init__(self, dims=2, width=0.5, center=1.0, lim=5.0, cut=None):
         self.dims = dims
         self.width = float(width)
         self.center = float(center)
         self.lim = float(lim)
+        self.cut = cut        # the likelihood is zero for x_0 < cut (inside the prior support)
 
     def ll_np(self, x):
         x = np.asarray(x, dtype=np.float64)
         if x.ndim == 1:
             x = x[:, None] if self.dims == 1 else x[None, :]
-        return -0.5 * (((x - self.center) / self.width) ** 2).sum(-1)
+        v = -0.5 * (((x - self.center) / self.width) ** 2).sum(-1)
+        if self.cut is not None:
+            v = np.where(x[:, 0] < self.cut, -np.inf, v)
+        return v
 
     def lp_np(self, x):
         x = np.asarray(x, dtype=np.float64)
@@ -395,7 +399,7 @@ DEFAULT = dict(
     n_final_steps=None, every=None, width=0.5, center=1.0, seed=1, kseed=None, precond="none",
     fault_k=None, fault_on="like", recipe=False, split=1, via="sampler", path=None,
     mcmc_steps=2, budget=400, bad_frac=0.0, rng_route="sample", store_history=True,
-    flow_seed=11, scale=0.3,
+    flow_seed=11, scale=0.3, cut=None,
 )
 
 
@@ -449,7 +453,7 @@ def run_smc(cfg: dict, ids: IdTable | None = None, resume_from=None, role="singl
     c.update(cfg)
     ids = ids or IdTable()
     xp = get_xp(c["ns"])
-    prob = Problem(c["dims"], c["width"], c["center"])
+    prob = Problem(c["dims"], c["width"], c["center"], cut=c.get("cut"))
     prob.recipe = bool(c["recipe"])
     tr = Tracer(prob, ids, fault_k=c["fault_k"], recipe=c["recipe"], file_path=c["path"])
     tr.fault_on = c["fault_on"]
